@@ -614,9 +614,10 @@ class IrGenerator:
             hook_body = inp._hook_body
             hook_orelse = inp._hook_orelse
 
+            # the test is evaluated before body and orelse (program order)
+            open_blocks = self.apply(inp._test, open_blocks=open_blocks)
             open_blocks = self.apply(inp._body, open_blocks=open_blocks)
             open_blocks = self.apply(inp._orelse, open_blocks=open_blocks)
-            open_blocks = self.apply(inp._test, open_blocks=open_blocks)
 
             for block in open_blocks:
                 if hook_body.has_redirect():
